@@ -68,6 +68,7 @@ type p2pRig struct {
 	ckLast    int
 	prevLongest   map[string]bool
 	prevTipHeight int
+	experimental  bool
 }
 
 func (g *p2pRig) now() time.Time { return time.Now() }
@@ -371,13 +372,25 @@ func (g *p2pRig) settle() {
 		if c.closed || c.dead {
 			continue
 		}
-		msgs := c.parse()
-		for _, m := range msgs {
-			g.nodeReceive(c, m)
+		if !c.silent && len(c.deferred) > 0 {
+			d := c.deferred
+			c.deferred = nil
+			for _, m := range d {
+				c.msgsIn--
+				g.nodeReceive(c, m)
+			}
 		}
-		if c.nodeEnd.PeerClosed() && !c.dead {
+		// whether the last messages the service queued still made it onto the wire before it closed the connection
+		// is a race inside the service; what arrives in the step in which the close is observed is dropped unseen
+		closedNow := c.nodeEnd.PeerClosed()
+		msgs := c.parse()
+		if closedNow {
 			c.dead = true
 			g.r.Logf("%s closed by the service", c)
+			continue
+		}
+		for _, m := range msgs {
+			g.nodeReceive(c, m)
 		}
 	}
 	g.admissionVerdicts()
@@ -421,28 +434,35 @@ func (g *p2pRig) nodeReceive(c *nodeConn, m wire.Message) {
 		r.Fault("node-stall")
 		r.Logf("%s goes silent (staller) after %d messages", c, c.msgsIn)
 	}
+	if c.silent {
+		// a stalled node does not lose what it was sent; it gets to it when it resumes
+		if _, isPing := m.(*wire.MsgPing); !isPing {
+			c.deferred = append(c.deferred, m)
+		}
+		return
+	}
 	switch msg := m.(type) {
 	case *wire.MsgVersion:
 		c.gotVer = true
-		if !c.silent {
-			c.send(wire.NewMsgVerAck())
+		if !c.sentVer {
+			c.sendVersion(g.now()) // the service dialled: the node answers with its own version first
 		}
+		c.send(wire.NewMsgVerAck())
+	case *wire.MsgSendHeaders:
+		// BIP 130: from now on this peer wants new blocks announced by headers
+		c.wantsHeaders = true
+		r.Probe("sendheaders-received")
 	case *wire.MsgVerAck:
 		c.gotVerack = true
 		if c.gotVer && c.handshakeDoneStep == 0 {
 			c.handshakeDoneStep = r.Step
 		}
 	case *wire.MsgPing:
-		if !c.silent {
-			c.send(wire.NewMsgPong(msg.Nonce))
-		}
+		c.send(wire.NewMsgPong(msg.Nonce))
 	case *wire.MsgGetHeaders:
 		c.getHdrs = append(c.getHdrs, msg)
 		g.nGetHdrs++
 		g.checkEmittedGetHeaders(c, msg)
-		if c.silent {
-			return
-		}
 		reply := n.headersReply(msg)
 		hm := wire.NewMsgHeaders()
 		for i, h := range reply {
@@ -523,6 +543,8 @@ func (g *p2pRig) step() {
 			evs = append(evs, ev{"connect", nil, n, 25})
 		} else if live < 7 && g.focus == "C18" {
 			evs = append(evs, ev{"connect", nil, n, 12})
+		} else if live < 3 && n.role == "forbidden" {
+			evs = append(evs, ev{"connect", nil, n, 8})
 		}
 		if live > 0 {
 			evs = append(evs, ev{"mine", nil, n, 4})
@@ -542,6 +564,22 @@ func (g *p2pRig) step() {
 	}
 	if r.Opt["race"] == "1" {
 		evs = append(evs, ev{"co-step", nil, nil, 40})
+	}
+	// a misbehaving node may push its forbidden header unasked (an unsolicited headers message), on any of its
+	// connections and at any time: the way to provoke a second ban of a host whose first ban is still running or
+	// has run out unnoticed. Only once the service has started a sync (it then accepts headers messages).
+	if g.nGetHdrs > 0 {
+		fc := g.liveConns(func(c *nodeConn) bool {
+			return c.node.role == "forbidden" && c.handshaken() && c.node.forbidden != nil && !c.partitioned && c.admittedLive
+		})
+		for _, c := range fc {
+			evs = append(evs, ev{"offend", c, nil, 5})
+		}
+		// directed sequence (faults placed where they create in-flight state): two offences of one host from two of
+		// its connections with time passing in between, then a new connection of that host
+		if len(fc) >= 2 && g.w.Cfg.P2P.BanDuration <= time.Hour && g.focus != "C06" {
+			evs = append(evs, ev{"double-ban", fc[0], nil, 10})
+		}
 	}
 	ws := make([]int, len(evs))
 	for i, e := range evs {
@@ -583,6 +621,46 @@ func (g *p2pRig) step() {
 		r.Logf("clock +%v", d)
 		g.advance(d)
 		return
+	case "offend":
+		hm := wire.NewMsgHeaders()
+		_ = hm.AddBlockHeader(toWireHeader(e.c.node.forbidden))
+		g.offered[e.c.node.forbidden.Hash] = true
+		e.c.send(hm)
+		e.c.misbehaved, e.c.misDelivered = "forbidden", false
+		r.Logf("%s pushes its forbidden header unasked", e.c)
+		r.Probe("forbidden-header-pushed")
+	case "double-ban":
+		fc := g.liveConns(func(c *nodeConn) bool {
+			return c.node == e.c.node && c.handshaken() && !c.partitioned && c.admittedLive
+		})
+		D := g.w.Cfg.P2P.BanDuration
+		offend := func(c *nodeConn) {
+			hm := wire.NewMsgHeaders()
+			_ = hm.AddBlockHeader(toWireHeader(c.node.forbidden))
+			g.offered[c.node.forbidden.Hash] = true
+			c.send(hm)
+			c.misbehaved, c.misDelivered = "forbidden", false
+			c.nodeEnd.Deliver(0)
+			g.afterDeliver(c)
+			g.settle()
+		}
+		r.Logf("double-ban: %s offends", fc[0])
+		offend(fc[0])
+		gap1 := time.Duration(t.Range(1, 14, "dban-gap1")) * D / 10
+		r.Logf("double-ban: clock +%v", gap1)
+		g.advance(gap1)
+		if c2 := fc[1]; !c2.dead && !c2.closed {
+			r.Logf("double-ban: %s offends", c2)
+			offend(c2)
+			r.Probe("second-offence-of-a-banned-host")
+		}
+		gap2 := time.Duration(t.Range(1, 12, "dban-gap2")) * D / 10
+		r.Logf("double-ban: clock +%v", gap2)
+		g.advance(gap2)
+		c3 := g.connect(e.c.node)
+		r.Logf("double-ban: connect %s", c3)
+		c3.nodeEnd.Deliver(0)
+		g.afterDeliver(c3)
 	case "partition":
 		e.c.partitioned = !e.c.partitioned
 		r.Logf("%s partitioned=%v", e.c, e.c.partitioned)
@@ -598,6 +676,7 @@ func (g *p2pRig) step() {
 		for _, c := range g.liveConns(nil) {
 			_ = c.nodeEnd.Close()
 			c.closed = true
+			g.settle() // one disconnect per quiescent step: simultaneous ones race inside the service
 		}
 		g.settle()
 		time.Sleep(d)
@@ -703,7 +782,7 @@ func (g *p2pRig) announce(n *simNode, nb *MHeader) {
 		// is known to have: the node sends every header after the last one it knows the service has; when it
 		// does not know, or the gap exceeds its reply cap, it falls back to inv
 		var seg []*MHeader
-		if n.announce == "headers" && c.known != nil {
+		if (n.announce == "headers" || c.wantsHeaders) && c.known != nil {
 			for h := nb; h != nil && h != c.known; h = h.Parent {
 				seg = append([]*MHeader{h}, seg...)
 				if h.Parent == nil {
@@ -1004,6 +1083,7 @@ func (g *p2pRig) heal() {
 				if !c.closed && !c.dead {
 					_ = c.nodeEnd.Close()
 					c.closed = true
+					g.settle()
 				}
 			}
 		case "others-follow":
